@@ -63,6 +63,10 @@ def judge_sequence(ctx, V, tag, ops, rec, W, res):
                             'state_after(objs,wires,ports)': rec[i][1],
                             'replay_hint': 'c11_world.replay_ops(ops): executes the calls on py4hw and dumps the object graph'})
         break
+    for (oi, clsname, isprim, beh) in getattr(W, 'prim_mismatch', [])[:1]:
+        V.spec_fail.append({'what': 'Logic.isPrimitive() = %s for a %s block (class %s): sources/sinks are registered for a block without propagate()/clock(), '
+                                    'or not registered for one that has them' % (isprim, 'behavioural' if beh else 'structural', clsname),
+                            'sequence': tag, 'object_index': oi, 'ops': ops_j})
     # ---- impl vs model
     if fd is not None:
         i, mr, md = fd[1]
@@ -215,7 +219,7 @@ def run_library(ctx, V, widths_per_block, all_inputs):
             k2 = rng.choice(driven)
             wires[k2].source = None
             real_c, txt_c = cw.real_integrity(py4hw, hw)
-            items.append(('b%d' % len(meta), 'let s := load %s in [integrity3 s 0%%nat; integrity3 (clear_source s %s) 0%%nat]' % (cw.dump_term(d), cw.nat(k2))))
+            items.append(('b%d' % len(meta), 'let s := load %s in (wf_bits s, [integrity3 s 0%%nat; integrity3 (clear_source s %s) 0%%nat])' % (cw.dump_term(d), cw.nat(k2))))
             meta.append(({'block': name, 'width': w, 'fault': 'none'}, real, txt,
                          {'block': name, 'width': w, 'fault': 'source of wire %s cleared' % wires[k2].getFullPath()}, real_c, txt_c))
             ctx.count(('lib', name, w, 'none')); ctx.count(('lib', name, w, 'cleared', k2))
@@ -228,19 +232,51 @@ def run_library(ctx, V, widths_per_block, all_inputs):
                 except Exception as ex:
                     skipped.append('%s/%d without driver %d: %s' % (name, w, skip, ex)); continue
                 real2, txt2 = cw.real_integrity(py4hw, hw2)
-                items.append(('b%d' % len(meta), 'let s := load %s in [integrity3 s 0%%nat; integrity3 s 0%%nat]' % cw.dump_term(d2)))
+                items.append(('b%d' % len(meta), 'let s := load %s in (wf_bits s, [integrity3 s 0%%nat; integrity3 s 0%%nat])' % cw.dump_term(d2)))
                 meta.append(({'block': name, 'width': w, 'fault': 'driver of input %d omitted' % skip}, real2, txt2, None, None, None))
                 ctx.count(('lib', name, w, 'undriven', skip))
+    # (d) the same blocks inside a user-written STRUCTURAL cell that keeps its port wires in attributes (names from ATTR_POOL, which
+    #     contains the method names the kernel probes: clock, propagate, run, structureName, verilogBody): must be constructible and
+    #     accepted; without the inner block (the only driver of the outputs) it must be rejected; the source of every wire must be a
+    #     port of a block WITH BEHAVIOUR (wf_bits on the dump, whose `primitive` flag is the harness's own ground truth)
+    for bi, entry in enumerate(cat):
+        name, widths = entry[0], list(entry[1])
+        ws = widths if all_inputs else [widths[(ctx.seed + bi) % len(widths)]]
+        for w in ws:
+            n_ports = len(entry[2](w)) + len(entry[3](w))
+            rot = (bi + w + ctx.seed) % 5                                   # the first attribute set is always a probed name
+            names = cw.ATTR_POOL[rot:rot + 1] + rng.sample(cw.ATTR_POOL, len(cw.ATTR_POOL))
+            names = list(dict.fromkeys(names))[:n_ports]
+            for with_inner in (True, False):
+                fault = 'none (user cell, port attributes %s)' % names if with_inner else 'inner block omitted: outputs of the user cell undriven (port attributes %s)' % names
+                where = {'block': name, 'width': w, 'fault': fault, 'wrapped_in_user_cell': True, 'attr_names': names, 'with_inner': with_inner}
+                try:
+                    _, hw3, cell, _, _ = cw.build_wrapped(entry, w, names, with_inner)
+                    d3, _, _ = cw.dump_hierarchy(py4hw, hw3)
+                except cw.NotSupported as ex:
+                    skipped.append('%s/%d wrapped: %s' % (name, w, ex)); continue
+                except Exception as ex:
+                    V.spec_fail.append(dict(where, what='constructing a well-formed user cell around a library block raised (a conflict is reported where there is none)',
+                                            impl_exception='%s: %s' % (type(ex).__name__, ex)))
+                    continue
+                real3, txt3 = cw.real_integrity(py4hw, hw3)
+                items.append(('b%d' % len(meta), 'let s := load %s in (wf_bits s, [integrity3 s 0%%nat; integrity3 s 0%%nat])' % cw.dump_term(d3)))
+                w1 = dict(where); w1['fault_kind'] = 'none' if with_inner else 'undriven'
+                meta.append((w1, real3, txt3, None, None, None))
+                ctx.count(('lib-cell', name, w, with_inner, tuple(names)))
     n_acc = n_rej = 0
     for k in range(0, len(items), 250):
         res = common.coq_eval("C11_lib_%d" % (k // 250), PRE, items[k:k + 250], timeout=900)
         for (nm_, _), m in zip(items[k:k + 250], meta[k:k + 250]):
-            (a, b) = res[nm_]
+            wf, (a, b) = res[nm_]
             w1, real1, txt1, w2, real2, txt2 = m
+            if wf != 0:
+                V.spec_fail.append(dict(w1, what='hierarchy read off the real objects is not well-formed: ' + ','.join(bit_names(wf)) +
+                                        ' (single_driver: the registered source of every wire must be exactly the out/inout port of a block with behaviour attached to it)'))
             judge_integrity(ctx, V, w1, real1, txt1, *a)
             n_acc += 0 if real1 else 1; n_rej += 1 if real1 else 0
             # expectations of the property itself: well-formed accepted, faulted rejected
-            if (w1['fault'] == 'none') == real1:
+            if (w1.get('fault_kind', w1['fault']) == 'none') == real1:
                 V.spec_fail.append(dict(w1, what='library block %s by checkIntegrity' % ('REJECTED although well-formed' if real1 else 'ACCEPTED although one input is undriven'),
                                         impl_exception=txt1))
             if w2 is not None:
@@ -299,6 +335,7 @@ def run(ctx):
             V.tie_breaks.append({'what': 'the %s phase of the check raised %s: %s' % (phase, type(ex).__name__, ex), 'traceback': traceback.format_exc()[-2500:]})
         ctx.log(phase + ' done')
     # ---- decide
+    V.spec_fail.sort(key=lambda v: 1 if 'object_index' in v else 0)      # structural violations first, the isPrimitive() diagnosis after them
     for v in V.spec_fail[:3]:
         ctx.violation(v)
     if not V.spec_fail:
@@ -310,7 +347,7 @@ def run(ctx):
     ctx.assumptions += ['Model/Build.v mirrors Logic.__init__, Wire.__init__, appendWire, setSource/addSource/addSink, In/Out/InOutPort constructors, '
                         'rename/reparent/reparentAndRename and debug.checkIntegrity/checkPort (checked on every run by the per-call differential, not verified)',
                         'ordinary Wire only (BidirWire/FakeWire are outside the property); port.wire is never reassigned (Logic.reconnectIn is not modelled)',
-                        'isPrimitive() is a property of the class (propagate/clock methods), constant over the life of the object',
+                        'whether a block is a primitive leaf (has a callable propagate/clock; ground truth computed by the harness, independent of Logic.isPrimitive) is fixed when the block is constructed',
                         'a constructor that raised leaves no reference to the half-built object with the caller']
 
 
